@@ -519,6 +519,13 @@ def main(argv=None):
     seed = int(os.environ.get("VERIF_SEED", "0") or 0)
     try:
         if a.replay:
+            # a replay runs under the hash seed (= VERIF_SEED) of the run that recorded it
+            want = str(json.load(open(a.replay)).get("seed", 0))
+            if os.environ.get("PYTHONHASHSEED") != want:
+                env = dict(os.environ, PYTHONHASHSEED=want, VERIF_SEED=want)
+                os.execve(sys.executable, [sys.executable, "-B", "-c",
+                                           'import sys; sys.path.insert(0, "."); from mc.core import main; sys.exit(main())',
+                                           *sys.argv[1:]], env)
             return run_replay(a.pid.upper(), a.replay)
         return run_check(a.pid.upper(), a.tier, seed)
     except HarnessError as e:
